@@ -78,6 +78,8 @@ class ExprMixin:
         if isinstance(t, TSet):
             return self.set_size(st, v) > 0
         if isinstance(t, TPy):
+            if v.z and v.z[0] == "class_choice":
+                return v.z[2]          # a dispatch-table lookup may have found nothing
             return z3.BoolVal(True)
         raise Unsupported(f"truthiness of {t}")
 
